@@ -542,6 +542,36 @@ func c20JoinSemantics(p *Prog) *RuleResult {
 		} else {
 			r.Fail(name+" waits for the snapshotted build", p.Pos(fn.Pos()), "returns without waiting for the running build "+badPath)
 		}
+		// ... and no return is reached at all without either waiting or having seen that no build is
+		// running: an early return (e.g. "already disposed") must not overtake a build that another
+		// caller is still waiting for.
+		r.Instances++
+		nilEdge := func(b *ssa.BasicBlock, si int) bool {
+			if len(b.Instrs) == 0 {
+				return false
+			}
+			ifi, isIf := b.Instrs[len(b.Instrs)-1].(*ssa.If)
+			if !isIf {
+				return false
+			}
+			bo, isB := ifi.Cond.(*ssa.BinOp)
+			if !isB || namedTypeName(bo.X.Type()) != "pkg/api.buildInProgress" {
+				return false
+			}
+			if _, fname, isF := loadedField(bo.X); !isF || fname != "activeBuild" {
+				return false
+			}
+			// the edge on which the snapshot is nil
+			if bo.Op.String() == "==" {
+				return si == 0
+			}
+			return si == 1
+		}
+		if path, reach := reachesExitAvoidingEdges(fn.Blocks[0], isReturnBlock, func(x *ssa.BasicBlock) bool { return waitBlocks[x] }, nilEdge); reach {
+			r.Fail(name+" never returns while a build may be running", p.Pos(fn.Pos()), "a return is reachable without waiting for the build and without having seen activeBuild == nil ("+blockPath(path)+"): a second Dispose()/Cancel() that arrives while the first is still waiting returns while the build is still running")
+		} else {
+			r.OK(name+" never returns while a build may be running", true, "every return passes build.waitGroup.Wait() or the edge on which the activeBuild snapshot is nil")
+		}
 	}
 	for _, name := range []string{"pkg/api.(*internalContext).rebuild", "pkg/api.(*internalContext).Cancel", "pkg/api.(*internalContext).Dispose", "pkg/api.(*internalContext).Watch", "pkg/api.(*internalContext).Serve"} {
 		fn := p.FindFunc(name)
